@@ -22,12 +22,25 @@ def plan(ctx):
             "count_sfs": list(range(1, 51))}
 
 
-def record(ctx, spec, tag):
+def record(ctx, spec, tag, env=None):
     sp = os.path.join(ctx.work, f"{tag}.spec.json")
     outp = os.path.join(ctx.work, f"{tag}.rec.ndjson")
     json.dump(spec, open(sp, "w"))
-    qev(["tpch-record", sp, outp, ctx.work], timeout=3000)
+    qev(["tpch-record", sp, outp, ctx.work], timeout=3000, env=env)
     return read_ndjson(outp)
+
+
+def record_pools(ctx, spec, tag):
+    """the same (sf, seed) pairs generated again in separate processes whose rayon pool has 1 / 3 / 7 workers: TLC judges
+    their digests against seen[(sf, seed)] of the main run (generated data must not depend on the number of worker threads)"""
+    small = dict(spec, sfs=spec["sfs"][:3] + spec["sfs"][-1:], reps=1, threads=1, parquet_sfs=spec["parquet_sfs"][:1], conc_sfs=[])
+    out = []
+    for n in (1, 3, 7):
+        rs = record(ctx, small, f"{tag}_pool{n}", env={"RAYON_NUM_THREADS": str(n)})
+        for r in rs:
+            r["pool"] = n
+        out += rs
+    return out
 
 
 def judge_trace(ctx, recs, opened, tag):
@@ -101,6 +114,9 @@ def run(ctx):
     model(ctx)
     spec = plan(ctx)
     recs = record(ctx, spec, "run")
+    pools = record_pools(ctx, spec, "run")
+    ctx.set("generations_under_other_rayon_pool_sizes", len([r for r in pools if r.get("ev") == "gen"]))
+    recs = recs + pools
     opened = open_devs(ctx)
     verdicts, res = judge_trace(ctx, recs, opened, "run")
     ctx.tlc_stats(res, f"trace validation TpchTrace ({len(recs)} records)")
